@@ -3,7 +3,7 @@ import xarray
 
 from typing import Optional
 
-from ocean_science_utilities.tools.solvers import fixed_point_iteration
+from ocean_science_utilities.tools.solvers import Configuration, fixed_point_iteration
 from ocean_science_utilities.wavephysics.balance.balance import SourceTermBalance
 from ocean_science_utilities.wavephysics.fluidproperties import (
     AIR,
@@ -77,6 +77,11 @@ def charnock_roughness_length_from_u10(speed, **kwargs) -> xarray.DataArray:
         return charnock_roughness_length(
             friction_velocity, charnock_constant=const, viscous_constant=visc
         )
+
+    # Roughness lengths range from 1e-9 to 1e-2 m. The default absolute tolerance of
+    # the solver (1e-4) only constrains iterates larger than that: for light winds
+    # the result would be off by up to 10%.
+    kwargs.setdefault("configuration", Configuration(atol=1e-12))
 
     output = fixed_point_iteration(
         _func, guess, bounds=(0, np.inf), caller="roughness_from_speed", **kwargs
